@@ -948,8 +948,11 @@ def translate(repo, spec, types, cache):
         if not stmts:
             raise KernelError("no statement to take the expression from")
         node = stmts[-1]
-        for attr in spec["expr"].split("."):    # e.g. "test", "value", "value.slice.upper"
-            node = getattr(node, attr, None)
+        for attr in spec["expr"].split("."):    # e.g. "test", "value", "value.slice.upper", "value.keywords.0.value.body"
+            if attr.isdigit():
+                node = node[int(attr)] if isinstance(node, list) and int(attr) < len(node) else None
+            else:
+                node = getattr(node, attr, None)
             if node is None:
                 raise KernelError(f"statement has no .{spec['expr']}")
 
